@@ -20,6 +20,12 @@ def run(chk):
                     'contents alone, that its Merkle proofs verify, and the sorted position of a transaction (the imbl '
                     'OrdMap / novasmt dense tree internals are hashing loops over pointer-rich trees)')
     chk.assume_note('root_hash is an uninterpreted injective function of the tree; A-HASH; A-CODEC')
+    # the coin tree's leaves are a function of the coin set: after insert_coin / remove_coin exactly the coin leaf and a count
+    # leaf for every covenant hash with a non-zero count exist (a stale zero-count leaf would make the root depend on history)
+    from props import c20
+    chk.assume_note('coin tree canonical form: decided on insert_coin / remove_coin against the CoinMapping contract (as in C20)')
+    c20.coin_kernels(chk, it)
+    it.base_read_hooks.pop('coins', None)
     header_kernel(chk, it)
     next_kernel(chk, it)
     smt_kernel(chk, it)
